@@ -32,7 +32,7 @@ ASSUMPTIONS = [
     "templates are identified by a tag in their text, not by Template.uri (which keeps the joined spelling)",
 ]
 MIN_NONTRIVIAL = 200
-REQUIRED_COUNTERS = ["sets_rendered", "relative_cross_directory_resolutions", "unresolvable_matched", "include_args_checked", "import_beats_context", "inline_def_precedence", "inheritable_via_self", "module_namespace_calls", "sibling_namespace_renders", "namespace_api_resolutions"]
+REQUIRED_COUNTERS = ["sets_rendered", "relative_cross_directory_resolutions", "unresolvable_matched", "include_args_checked", "import_beats_context", "inline_def_precedence", "inheritable_via_self", "module_namespace_calls", "sibling_namespace_renders", "namespace_api_resolutions", "nameless_namespace_renders"]
 
 _st = {}
 
@@ -522,6 +522,32 @@ def run_directed(res):
                     res.violate("namespace-of-sibling-uri", "templates %r each declare their own namespace (%s) and are included, in the order %r, into one "
                                 "render: output %r, expected %r" % (group, style, order, got, want))
                 res.nontrivial("sib", group, style, order)
+
+    # (C) several <%namespace ... import=...> tags WITHOUT a name in one template - on one line back to back, separated
+    # by a space, or one per line: every one of them contributes its imported defs
+    for sep_name, sep in (("back to back", ""), ("space separated", " "), ("one per line", "\n")):
+        for n in (2, 3):
+            for style in ("file", "mixed-with-module"):
+                lk = L()
+                tags, calls, want = [], [], []
+                for i in range(n):
+                    lk.put_string("/imp%d.html" % i, '<%%def name="fn%d()">F%d</%%def><%%def name="other%d()">O%d</%%def>' % (i, i, i, i))
+                    if style == "mixed-with-module" and i == 1:
+                        tags.append('<%namespace module="verif_c07_mod" import="mf"/>')
+                        calls.append("${mf('q')}")
+                        want.append("MODFN[q|cv=CV]")
+                    else:
+                        tags.append('<%%namespace file="/imp%d.html" import="%s"/>' % (i, "fn%d" % i if i % 2 == 0 else "*"))
+                        calls.append("${fn%d()}" % i)
+                        want.append("F%d" % i)
+                lk.put_string("/main.html", sep.join(tags) + "\n[" + "|".join(calls) + "]")
+                got = render(lk, "/main.html", cv="CV")
+                res.evaluations += 1
+                res.count("nameless_namespace_renders")
+                exp = "[" + "|".join(want) + "]"
+                if got != exp:
+                    res.violate("nameless-namespaces", "%d nameless <%%namespace import=> tags %s (%s): rendered %r, expected %r" % (n, sep_name, style, got, exp))
+                res.nontrivial("nameless", sep_name, n, style)
 
     # (B) the Namespace API of a FILE namespace declared in a deeper template: get_namespace / get_template /
     # include_file with a relative URI resolve against the namespace's own template (documented on
